@@ -33,7 +33,7 @@ PROPS = {
     "C18": dict(pkg="c18", shards=(4, 16), timeout=(600, 3600)),
     "C19": dict(pkg="c19", shards=(2, 8), timeout=(600, 3600)),
     "C20": dict(pkg="c20", shards=(4, 16), timeout=(600, 3600), typereg=True),
-    "C08": dict(pkg="c08", shards=(6, 16), timeout=(900, 5400), typereg=True),
+    "C08": dict(pkg="c08", shards=(6, 12), timeout=(900, 5400), typereg=True, fuzz=[("FuzzTL", 180, 2), ("FuzzTLB", 180, 2)]),
     "C04": dict(pkg="c04", shards=(4, 16), timeout=(600, 3600), typereg=True),
     "C05": dict(pkg="c05", shards=(4, 16), timeout=(600, 3600)),
     "C06": dict(pkg="c06", shards=(4, 16), timeout=(300, 3600)),
